@@ -50,7 +50,7 @@ def gen(rng, tier):
                     "v": rng.randrange(6), "at": rng.choice([None, 0, 0, 0.05, 0.1]), "by": rng.randrange(3),
                     "wrap": rng.choice([None, None, None, "lib", "nocancel"]),
                     # an input that FAILED WITH a CancelledError instance is failed, not cancelled
-                    "cerr": rng.random() < 0.15})
+                    "cerr": rng.random() < 0.15, "falsy_exc": rng.random() < 0.12})
     spec = {"op": op, "ins": ins, "dup": (rng.randrange(n), rng.randrange(n)) if n >= 2 and rng.random() < 0.2 else None,
             "cancel_at": rng.choice([None, None, None, 0, 0.05]), "settle": 5.0,
             # the caller's own clean-up: a done-callback on the output that cancels one of the inputs
@@ -74,7 +74,7 @@ def run(spec, env):
         elif inp["end"] == "falsy":
             results[i] = make_value(False, inp["v"], i)
         elif inp["end"] == "exc":
-            results[i] = CancelledError() if inp.get("cerr") else env.exc(("in", i))
+            results[i] = CancelledError() if inp.get("cerr") else env.exc(("in", i), "FalsyErr" if inp.get("falsy_exc") else "ScriptedError")
     env.objs["results"] = results
 
     def complete(i):
